@@ -417,7 +417,7 @@ def main():
         try:
             ok = llc.activate(mac)
         except nfc.llcp.pdu.DecodeError:
-            return 'err DecodeError'
+            return 'err DecodeError'         # (not since e19069b: activate returns False)
         except Exception as e:  # noqa
             return 'crash ' + type(e).__name__
         return 'ok ' + cfg_line('ok 1' if ok else 'ok 0', llc)
@@ -442,11 +442,6 @@ def main():
     out = mr.run(klines)
     nmis = 0
     for line, im, got in zip(klines, kexp, out):
-        # malformed general bytes are C07's concern: the pinned code lets pdu.DecodeError escape from llc.activate,
-        # a repaired tree may return False instead (nothing is taken over in either case)
-        if got == 'err DecodeError' and im == 'ok 0 0 0 0 0 0 0':
-            ck.count('takeover-malformed-repaired')
-            continue
         if got != im:
             nmis += 1
             if nmis <= 5:
